@@ -67,6 +67,10 @@ func genCLI(t *rapid.T) cliCase {
 		alphabet, chars = "aa", cliAa[set]
 	}
 	c.Ali = gen.Columnwise(t, chars, 1, 5, 1, 12, alphabet)
+	if uni(t, 40, "longcli") == 0 {
+		// the long class (1000-2600 columns), here stored as it is
+		c.Ali = expand(c.Ali, genLong(t, c.Ali, 1))
+	}
 	l := aliLen(c.Ali)
 	c.Kind = []string{"window", "window", "pos", "unique"}[uni(t, 4, "kind")]
 	c.UseRef = uni(t, 3, "useref") != 0
@@ -237,6 +241,9 @@ func checkCLI(dir string, c cliCase) (o pbt.Outcome, err error) {
 		}
 	}
 	o.Class("cli kind=%s ref=%v", c.Kind, c.UseRef)
+	if aliLen(c.Ali) >= 1000 {
+		o.Class("cli long alignment kind=%s ref=%v", c.Kind, c.UseRef)
+	}
 	o.Class("cli mode=%s", modeKind(c.Replace))
 	_, _, modeOK := replacement(c.Replace, alphaOf(c.Ali))
 	// plan: the model's prediction for one alignment of the input
